@@ -394,7 +394,9 @@ func (l *leader) notifyFlr(includeConfig bool) {
 		commitIndex: l.commitIndex,
 	}
 	if includeConfig {
-		update.config = &l.configs.Latest
+		// a copy: the replication goroutines read it while l.configs.Latest is reassigned
+		config := l.configs.Latest
+		update.config = &config
 	}
 	for _, repl := range l.repls {
 		select {
